@@ -10,9 +10,18 @@ using namespace grv;
 
 namespace {
 std::string fontdir;
+std::string file_of(const std::string &kind) {
+    return fontdir + (kind == "compressed" ? "/Awami_compressed_test.ttf" : kind == "awami" ? "/AwamiNastaliq-Regular.ttf" : "/Padauk.ttf");
+}
 bool prepare(TableFace &tf, const std::string &kind) {
-    if (kind == "compressed") return tf.load(fontdir + "/Awami_compressed_test.ttf");
-    if (!tf.load(fontdir + "/Padauk.ttf")) return false;
+    if (!tf.load(file_of(kind))) return false;
+    if (kind == "compressed" || kind == "awami") return true;
+    if (kind == "badglyph") {          // glyph 99 (U+1000) gets an empty attribute range: it cannot be loaded
+        std::vector<uint8_t> g = tf.tables[tagof("Gloc")];
+        const bool lng = be16(&g[4]) & 1; const size_t esz = lng ? 4 : 2, at = 8 + esz * 99;
+        if (at + 2 * esz <= g.size()) memcpy(&g[at], &g[at + esz], esz);
+        tf.tables[tagof("Gloc")] = g;
+    }
     if (kind == "noname") tf.drop("name");
     else if (kind == "badlabel") {      // every Windows-platform name string ends in an unpaired lead surrogate
         std::vector<uint8_t> n = tf.tables[tagof("name")];
@@ -28,8 +37,29 @@ bool prepare(TableFace &tf, const std::string &kind) {
     else if (kind == "badsilf") { std::vector<uint8_t> s = tf.tables[tagof("Silf")]; s[1] = 1; s[0] = 0; tf.tables[tagof("Silf")] = s; }   // version 1.0: too old
     return true;
 }
-const uint32_t T_PADAUK[2][6] = {{0x1000, 0x103C, 0x102D, 0x102F, 0x20, 0x41}, {0x1004, 0x103A, 0x1039, 0x1005, 0x1031, 0x1038}};
-const uint32_t T_AWAMI[2][6] = {{0x0628, 0x0628, 0x064E, 0x0644, 0x0627, 0x06CC}, {0x06A9, 0x06CC, 0x0627, 0x20, 0x0646, 0x06C1}};
+std::vector<std::string> texts_padauk, texts_awami;
+std::vector<std::string> read_lines(const std::string &p) { std::vector<std::string> r; std::string d = slurp(p), cur; for (char c : d) { if (c == '\n') { if (!cur.empty()) r.push_back(cur); cur.clear(); } else cur += c; } if (!cur.empty()) r.push_back(cur); return r; }
+uint64_t fnv(const std::string &s) { uint64_t h = 1469598103934665603ULL; for (unsigned char c : s) { h ^= c; h *= 1099511628211ULL; } return h; }
+std::string self_report(const gr_face *face) {
+    std::string r = "g" + std::to_string(gr_face_n_glyphs(face)) + " f" + std::to_string(gr_face_n_fref(face)) + " l" + std::to_string(gr_face_n_languages(face));
+    for (unsigned k = 0; k < gr_face_n_fref(face); ++k) {
+        const gr_feature_ref *q = gr_face_fref(face, gr_uint16(k));
+        r += " [" + std::to_string(gr_fref_id(q)) + ":";
+        for (unsigned j = 0; j < gr_fref_n_values(q); ++j) r += std::to_string(gr_fref_value(q, gr_uint16(j))) + ",";
+        r += "]";
+    }
+    for (unsigned k = 0; k < gr_face_n_languages(face); ++k) {
+        const gr_uint32 lg = gr_face_lang_by_index(face, gr_uint16(k)); r += " L" + std::to_string(lg);
+        gr_feature_val *fv = gr_face_featureval_for_lang(face, lg);
+        for (unsigned q = 0; q < gr_face_n_fref(face); ++q) r += "," + std::to_string(gr_fref_feature_value(gr_face_fref(face, gr_uint16(q)), fv));
+        gr_featureval_destroy(fv);
+    }
+    const gr_uint32 cps[] = {0, 0x20, 0x41, 0x3B1, 0x627, 0x6A9, 0x1000, 0x1039, 0x109F, 0x200C, 0x25CC, 0xFFFF, 0x10000, 0x1D510, 0x10FFFF};
+    for (gr_uint32 c : cps) r += gr_face_is_char_supported(face, c, 0) ? "1" : "0";
+    const gr_faceinfo *fi = gr_face_info(face, 0);
+    if (fi) r += " i" + std::to_string(fi->extra_ascent) + "," + std::to_string(fi->extra_descent) + "," + std::to_string(fi->upem) + "," + std::to_string(fi->has_bidi_pass) + std::to_string(fi->line_ends) + std::to_string(fi->justifies);
+    return r;
+}
 }
 
 // grv facelife <histories.ndjson> <trace-out.ndjson> <fontdir>
@@ -38,6 +68,9 @@ GRV_CMD(facelife) {
     FILE *f = fopen(argv[0], "r"); if (!f) { perror(argv[0]); return 2; }
     FILE *tr = fopen(argv[1], "w"); if (!tr) { perror(argv[1]); return 2; }
     fontdir = argv[2];
+    const std::string datadir = argc > 3 ? argv[3] : ".";
+    texts_padauk = read_lines(datadir + "/texts_padauk.txt"); texts_awami = read_lines(datadir + "/texts_awami.txt");
+    if (texts_padauk.size() < 8 || texts_awami.size() < 8) { fprintf(stderr, "text files missing in %s\n", datadir.c_str()); return 2; }
     std::string line; long calls = 0, histories = 0;
     while (vj::readline(f, line)) {
         if (line.empty()) continue;
@@ -58,15 +91,16 @@ GRV_CMD(facelife) {
             }
         };
         gr_face *face = 0; std::vector<gr_font *> fonts; std::vector<gr_segment *> segs; std::vector<gr_feature_val *> fvals;
-        fonts.reserve(8); segs.reserve(8); fvals.reserve(8);
+        std::vector<std::string> segkeys; std::vector<float> fontppm;
+        fonts.reserve(8); segs.reserve(8); fvals.reserve(8); segkeys.reserve(8); fontppm.reserve(8);
         const size_t mem0 = &__sanitizer_get_current_allocated_bytes ? __sanitizer_get_current_allocated_bytes() : 0;
-        const bool awami = kind == "compressed";
+        const bool awami = kind == "compressed" || kind == "awami";
         for (auto &o : (*v)["hist"].a) {
             const std::string op = (*o)["op"].s; const long arg = long((*o)["arg"].num());
             ++calls;
             fprintf(tr, "{\"e\":\"Call\",\"op\":\"%s\",\"arg\":%ld}\n", op.c_str(), arg);
-            int ok = 1;
-            if (op == "make_face") { face = tf->make(unsigned(arg)); ok = face != 0; }
+            int ok = 1; std::string h, key;
+            if (op == "make_face") { face = arg >= 8 ? gr_make_file_face(file_of(kind).c_str(), unsigned(arg - 8)) : tf->make(unsigned(arg)); ok = face != 0; }
             else if (op == "label") {
                 const gr_feature_ref *r = gr_face_n_fref(face) ? gr_face_fref(face, 0) : 0;
                 if (r) { gr_uint16 lang = 0x409; gr_uint32 len = 0; void *p = gr_fref_label(r, &lang, gr_utf8, &len); if (p) gr_label_destroy(p);
@@ -74,22 +108,44 @@ GRV_CMD(facelife) {
             }
             else if (op == "face_query") {
                 volatile unsigned sink = gr_face_n_glyphs(face) + gr_face_n_fref(face) + gr_face_n_languages(face) + gr_face_is_char_supported(face, 0x1000, 0) + gr_face_is_char_supported(face, 0x10FFFF, 0);
-                const gr_faceinfo *fi = gr_face_info(face, 0); sink = sink + (fi ? fi->extra_ascent : 0);
-                for (unsigned k = 0; k < gr_face_n_languages(face); ++k) sink = sink + gr_face_lang_by_index(face, gr_uint16(k));
                 (void)sink;
+                h = std::to_string(fnv(self_report(face))); key = "self";
             }
             else if (op == "featval") fvals.push_back(gr_face_featureval_for_lang(face, 0));
             else if (op == "destroy_fval") { gr_featureval_destroy(fvals.back()); fvals.pop_back(); }
-            else if (op == "make_font") { gr_font *gf = gr_make_font(arg ? float(arg) : 16.5f, face); fonts.push_back(gf); ok = gf != 0; }
-            else if (op == "destroy_font") { gr_font_destroy(fonts.back()); fonts.pop_back(); }
+            else if (op == "make_font") { const float ppm = arg ? float(arg) : 16.5f; gr_font *gf = gr_make_font(ppm, face); fonts.push_back(gf); fontppm.push_back(ppm); ok = gf != 0; }
+            else if (op == "destroy_font") { gr_font_destroy(fonts.back()); fonts.pop_back(); fontppm.pop_back(); }
             else if (op == "make_seg") {
-                const uint32_t *t = awami ? T_AWAMI[arg & 1] : T_PADAUK[arg & 1];
-                gr_segment *s = gr_make_seg(fonts.empty() ? 0 : fonts.back(), face, 0, fvals.empty() ? 0 : fvals.back(), gr_utf32, t, 6, awami ? 1 : 0);
+                const std::string &t = awami ? texts_awami[arg & 7] : texts_padauk[arg & 7];
+                const size_t nch = gr_count_unicode_characters(gr_utf8, t.data(), t.data() + t.size(), 0);
+                gr_segment *s = gr_make_seg(fonts.empty() ? 0 : fonts.back(), face, 0, fvals.empty() ? 0 : fvals.back(), gr_utf8, t.data(), nch, awami ? 1 : 0);
                 segs.push_back(s); ok = s != 0;
+                key = "t" + std::to_string(arg & 7) + ":p" + std::to_string(fonts.empty() ? 0 : int(fontppm.back() * 10));
+                segkeys.push_back(key);
+                SegP p = project(s, face, fonts.empty() ? 0 : fonts.back(), kind != "badglyph");
+                if (!p.wf.empty()) { vj::W w; w.str("kind", kind).i("text", arg); report_fail(p.wfprop.c_str(), p.wf, w.done()); }
+                h = std::to_string(fnv(dump(p)));
             }
-            else if (op == "query_seg") { if (segs.back()) { SegP p = project(segs.back(), face, fonts.empty() ? 0 : fonts.back(), true); if (!p.wf.empty()) report_fail(p.wfprop.c_str(), p.wf, "null"); } }
-            else if (op == "justify") { if (segs.back() && gr_seg_first_slot(segs.back())) gr_seg_justify(segs.back(), gr_seg_first_slot(segs.back()), fonts.empty() ? 0 : fonts.back(), 500.0, gr_justCompleteLine, 0, 0); }
-            else if (op == "destroy_seg") { if (segs.back()) gr_seg_destroy(segs.back()); segs.pop_back(); }
+            else if (op == "shape") {
+                const std::string &t = awami ? texts_awami[arg & 7] : texts_padauk[arg & 7];
+                const size_t nch = gr_count_unicode_characters(gr_utf8, t.data(), t.data() + t.size(), 0);
+                gr_segment *s = gr_make_seg(fonts.empty() ? 0 : fonts.back(), face, 0, 0, gr_utf8, t.data(), nch, awami ? 1 : 0);
+                key = "t" + std::to_string(arg & 7) + ":p" + std::to_string(fonts.empty() ? 0 : int(fontppm.back() * 10));
+                SegP p = project(s, face, fonts.empty() ? 0 : fonts.back(), kind != "badglyph");
+                if (!p.wf.empty()) { vj::W w; w.str("kind", kind).i("text", arg); report_fail(p.wfprop.c_str(), p.wf, w.done()); }
+                h = std::to_string(fnv(dump(p)));
+                if (s) gr_seg_destroy(s);
+            }
+            else if (op == "query_seg") {
+                if (segs.back() && !segkeys.back().empty()) {
+                    // the font used for advances is the one the segment was made with only if it is still the newest; query without it
+                    SegP p = project(segs.back(), face, 0, kind != "badglyph");
+                    if (!p.wf.empty()) report_fail(p.wfprop.c_str(), p.wf, "null");
+                    key = segkeys.back() + ":q"; h = std::to_string(fnv(dump(p)));
+                }
+            }
+            else if (op == "justify") { if (segs.back() && gr_seg_first_slot(segs.back())) { gr_seg_justify(segs.back(), gr_seg_first_slot(segs.back()), fonts.empty() ? 0 : fonts.back(), 500.0, gr_justCompleteLine, 0, 0); segkeys.back().clear(); } }
+            else if (op == "destroy_seg") { if (segs.back()) gr_seg_destroy(segs.back()); segs.pop_back(); segkeys.pop_back(); }
             else if (op == "destroy_face") { gr_face_destroy(face); face = 0; }
             flush_events();
             // tags still borrowed
@@ -97,7 +153,7 @@ GRV_CMD(facelife) {
             bool first = true;
             for (auto &b : tf->bufs) if (!b.released) { held += (first ? "\"" : ",\"") + tagstr(b.tag) + "\""; first = false; }
             held += "]";
-            fprintf(tr, "{\"e\":\"Ret\",\"op\":\"%s\",\"arg\":%ld,\"ok\":%d,\"held\":%s}\n", op.c_str(), arg, ok, held.c_str());
+            fprintf(tr, "{\"e\":\"Ret\",\"op\":\"%s\",\"arg\":%ld,\"ok\":%d,\"held\":%s,\"h\":\"%s\",\"key\":\"%s\"}\n", op.c_str(), arg, ok, held.c_str(), h.c_str(), key.c_str());
             if (tf->doubleRel || tf->unknownRel) { report_fail("C16", "release_table called twice for a buffer or with a pointer get_table never returned", "null"); tf->doubleRel = tf->unknownRel = 0; }
         }
         // the model only emits histories in which the client destroyed everything it owns
